@@ -527,6 +527,36 @@ pub fn multi_finish(_args: &[String]) -> String {
         }
     }
     }
+    // the MultiProgress moves to a terminal of another width: a finished bar is counted with the rows it takes THERE
+    for (w1, w2) in [(30u16, 10u16), (10, 30), (30, 12), (12, 30)] {
+        for first in [true, false] {
+            let term1 = InMemoryTerm::new(12, w1);
+            let term2 = InMemoryTerm::new(12, w2);
+            let mp = MultiProgress::with_draw_target(ProgressDrawTarget::term_like(Box::new(term1.clone())));
+            let mk2 = |m: &str| { let pb = ProgressBar::new(10); pb.set_style(ProgressStyle::with_template("{msg} {pos}").unwrap()); pb.set_message(m.to_string()); pb };
+            let text = "a-finished-bar-of-25-cols";
+            let (a, b) = if first { let a = mp.add(mk2(text)); let b = mp.add(mk2("b")); (a, b) } else { let b = mp.add(mk2("b")); let a = mp.add(mk2(text)); (a, b) };
+            a.tick(); b.tick();
+            a.finish();
+            mp.set_draw_target(ProgressDrawTarget::term_like(Box::new(term2.clone())));
+            b.inc(1);
+            drop(a);
+            b.inc(1);
+            b.inc(1);
+            tried += 1;
+            let hist = vec![format!("{}-column terminal; bars a ({}) and b, a added {}", w1, text, if first { "first" } else { "second" }),
+                "tick both; a.finish()".to_string(), format!("mp.set_draw_target({}-column terminal)", w2), "b.inc(1); drop(a); b.inc(1); b.inc(1)".to_string()];
+            let full = format!("{} 10", text);
+            let arows: Vec<String> = full.as_bytes().chunks(w2 as usize).map(|c| String::from_utf8_lossy(c).trim_end().to_string()).collect();
+            let mut rows: Vec<String> = vec![];
+            if first { rows.extend(arows.clone()); rows.push("b 3".into()); } else { rows.push("b 3".into()); rows.extend(arows.clone()); }
+            let want = rows.join("\n");
+            let got = term2.contents();
+            if got != want {
+                return report("C19/C04 after a move to a terminal of another width, a finished and dropped bar keeps all the rows it takes there, and redraws erase exactly the live rows", &hist, &want, &got, "multi_finish");
+            }
+        }
+    }
     format!("{{\"found\": false, \"tried\": {}}}", tried)
 }
 
@@ -738,6 +768,52 @@ pub fn multi_overflow(_args: &[String]) -> String {
             }
         }
     }
+    // bars of different heights: painting stops at the FIRST line that does not fit, a later shorter one is not painted instead
+    for height in 2u16..=5 {
+        for kinds in [&[0usize, 2, 2, 0][..], &[2, 0], &[0, 2, 0], &[2, 2, 0], &[0, 0, 2, 0], &[1, 2, 0], &[3]] {
+            let term = InMemoryTerm::new(height, 10);
+            let mp = MultiProgress::with_draw_target(ProgressDrawTarget::term_like(Box::new(term.clone())));
+            let mut hist = vec![format!("{}x10 terminal; bars of kinds {:?} (0: one row, 1: two template lines, 2: one line wrapping over two rows, 3: template first / wrapping message / third)", height, kinds)];
+            // the LINES of one bar, each with its rows
+            let lines_of = |i: usize, k: usize, pos: u64| -> Vec<Vec<String>> {
+                match k {
+                    0 => vec![vec![format!("b{} {}", i, pos)]],
+                    1 => vec![vec![format!("b{} top", i)], vec![format!("b{} {}", i, pos)]],
+                    2 => { let t = format!("b{}-wraps-over {}", i, pos); vec![vec![t[..10].to_string(), t[10..].to_string()]] }
+                    _ => vec![vec!["first".to_string()], vec!["a-message-".to_string(), format!("wrapping {}", pos)], vec!["third".to_string()]],
+                }
+            };
+            let bars: Vec<ProgressBar> = kinds.iter().enumerate().map(|(i, &k)| {
+                let pb = mp.add(ProgressBar::new(10));
+                let t = match k { 0 => format!("b{} {{pos}}", i), 1 => format!("b{} top\nb{} {{pos}}", i, i), 2 => format!("b{}-wraps-over {{pos}}", i), _ => "first\n{msg} {pos}\nthird".to_string() };
+                pb.set_style(ProgressStyle::with_template(&t).unwrap());
+                if k == 3 { pb.set_message("a-message-wrapping"); }
+                pb
+            }).collect();
+            let mut pos = vec![0u64; kinds.len()];
+            for round in 0..3 {
+                for (i, pb) in bars.iter().enumerate() {
+                    if round > 0 { pb.inc(1); pos[i] += 1; } else { pb.tick(); }
+                }
+                hist.push(if round == 0 { "tick every bar".to_string() } else { "inc(1) on every bar".to_string() });
+                tried += 1;
+                let mut shown: Vec<String> = vec![];
+                let mut used = 0usize;
+                'outer3: for (i, &k) in kinds.iter().enumerate() {
+                    for l in lines_of(i, k, pos[i]) {
+                        if used + l.len() > height as usize { break 'outer3; }
+                        used += l.len();
+                        shown.extend(l);
+                    }
+                }
+                let want = shown.join("\n");
+                let got = term.contents();
+                if got != want {
+                    return report("C19 only the LEADING bar lines that fit are painted: painting stops at the first line that does not fit", &hist, &want, &got, "multi_overflow");
+                }
+            }
+        }
+    }
     format!("{{\"found\": false, \"tried\": {}}}", tried)
 }
 
@@ -760,17 +836,29 @@ pub fn bar_reuse(_args: &[String]) -> String {
             hist.push("iterate 4 items to exhaustion".into());
             pb.reset();
             hist.push("reset".into());
+            tried += 1;
+            if pb.is_finished() {
+                return report("C04/C07 is_finished() is false again after reset()", &hist, "is_finished() == false", "is_finished() == true", "bar_reuse");
+            }
+            pb.set_message("again");
+            hist.push("set_message(again)".into());
             match second {
                 0 => { for _ in (0..4).progress_with(pb.clone()) {} hist.push("iterate again to exhaustion".into()); }
                 1 => { pb.set_position(2); pb.finish_using_style(); hist.push("set_position(2); finish_using_style".into()); }
                 _ => { pb.set_position(2); hist.push("set_position(2); drop the last handle".into()); }
             }
             let (msg, pos) = match (mode, second) {
-                (0, 0) => ("", 4), (0, _) => ("", 4),
+                (0, 0) => ("again", 4), (0, _) => ("again", 4),
                 (1, _) => ("done", 4),
                 (_, 0) => ("gone", 4), (_, _) => ("gone", 2),
             };
             let want = format!("[{}]\n{}/4", msg, pos);
+            if second < 2 {
+                tried += 1;
+                if !pb.is_finished() {
+                    return report("C04/C17 a reused bar is finished again after its second completion", &hist, "is_finished() == true", "is_finished() == false", "bar_reuse");
+                }
+            }
             if second == 2 {
                 drop(pb);
             }
